@@ -68,6 +68,8 @@ type Member struct {
 	Body     []Stmt   `json:"body"`
 	SameLine bool     `json:"sameLine"` // starts on the line the previous member ends on
 	Throws   []string `json:"throws"`
+	// Init (fields): an initialiser expression `Type name = <expr>;` - calls and creations in it belong to no method
+	Init *Expr `json:"init,omitempty"`
 	// OneLine: the whole member (header, body, closing brace) is written on one line; the line facts of call sites inside it are NOT valid
 	OneLine bool `json:"oneLine"`
 }
@@ -562,7 +564,13 @@ func Render(f File, layout int) (string, Facts) {
 			rd.ref(m.Type)
 			w.s(m.Type + " ")
 			mf.IdLine, mf.IdC0, mf.IdB0 = w.line, w.colR, w.colB
-			w.s(m.Name + ";\n")
+			if m.Init != nil {
+				w.s(m.Name + " = ")
+				rd.expr(m.Init)
+				w.s(";\n")
+			} else {
+				w.s(m.Name + ";\n")
+			}
 			mf.EndLine = w.line - 1
 			rd.sc.fields[m.Name] = m.Type
 		case "ctor", "method":
@@ -668,6 +676,9 @@ func Normalize(f *File) {
 			}
 		}
 		m.Body = normStmts(m.Body)
+		if m.Init != nil {
+			normExpr(m.Init)
+		}
 	}
 }
 
